@@ -3,6 +3,7 @@ package main
 import (
 	"bytes"
 	"fmt"
+	"os"
 	"path/filepath"
 	"strings"
 
@@ -114,6 +115,21 @@ func c18Oracle(sc *Scenario, r *Result) *Violation {
 		}
 	}
 	writes := r.Writes()
+	// a failed write of README.md: the tool did not write the file it is there to write, so it must not report
+	// success (the bytes a full disk leaves behind are not judged)
+	for _, w := range writes {
+		if !w.Ok {
+			if r.Exit == 0 {
+				cause := w.Fault
+				if cause == "" {
+					cause = "write_" + w.Why
+				}
+				return &Violation{Class: "exit0-unwritten", Signature: "exit0-unwritten@" + cause,
+					Detail: fmt.Sprintf("writing %s failed (%d of %d bytes stored, %s %s) and the tool exited 0", w.Path, w.Stored, w.Len, w.Fault, w.Why)}
+			}
+			return nil
+		}
+	}
 	if readFault {
 		if r.Exit == 0 {
 			return &Violation{Class: "partial-on-fault", Signature: "partial-on-fault:exit0",
@@ -414,6 +430,63 @@ func checkC18(tier string) {
 		return outcome{sc, v}
 	}, nil)
 
+	c.phase("write-fault batch")
+	outsW := parallel(c, n/4, func(k int) outcome {
+		i := k * 4
+		r := common.NewRng(common.Mix(c.Seed, 181818, uint64(i)))
+		sc := bases[i].Clone()
+		ws := twins[i].Writes()
+		if len(ws) == 0 {
+			return outcome{sc, nil}
+		}
+		kind := r.Pick("write_error", "enospc", "capacity", "dest_is_dir")
+		switch kind {
+		case "write_error":
+			sc.Faults = append(sc.Faults, Fault{Op: "write", Nth: 1, Kind: "error"})
+		case "enospc":
+			after := 0
+			if ws[0].Len > 0 {
+				after = r.Intn(ws[0].Len)
+			}
+			sc.Faults = append(sc.Faults, Fault{Op: "write", Nth: 1, Kind: "enospc", After: after})
+		case "capacity":
+			used := int64(0)
+			for p := range sc.Disk.Files {
+				if p == ws[0].Path {
+					continue // the old README is truncated before the new one is stored
+				}
+				b, _ := sc.Disk.Get(p)
+				used += int64(len(b))
+			}
+			if ws[0].Len == 0 {
+				return outcome{sc, nil}
+			}
+			sc.Disk.Capacity = used + int64(r.Intn(ws[0].Len)) + 1
+			if sc.Disk.Capacity >= used+int64(ws[0].Len) {
+				sc.Disk.Capacity = used + int64(ws[0].Len) - 1
+			}
+			if sc.Disk.Capacity <= 0 {
+				return outcome{sc, nil}
+			}
+		case "dest_is_dir":
+			delete(sc.Disk.Files, ws[0].Path)
+			sc.Disk.Dirs = append(sc.Disk.Dirs, ws[0].Path)
+		}
+		sc.Note += " fault=" + kind
+		res := c.sim(c.B.BsmVerif, sc)
+		for _, w := range res.Writes() {
+			if !w.Ok {
+				c.count("fault_fired:"+kind, 1)
+				if c.markDistinct("sc:" + sc.Hash()) {
+					c.count("distinct_fault", 1)
+				}
+				break
+			}
+		}
+		return outcome{sc, c18Oracle(sc, res)}
+	}, nil)
+	outs2 = append(outs2, outsW...)
+
 	c.phase("shipped tool on real directories")
 	nReal := n / 40
 	outs3 := parallel(c, nReal, func(k int) outcome {
@@ -428,6 +501,22 @@ func checkC18(tier string) {
 	}, nil)
 	outs2 = append(outs2, outs3...)
 
+	// permanent corpus: replays of fixed findings
+	if ents, err := os.ReadDir(filepath.Join(verifDir, "corpus", "c18")); err == nil {
+		for _, e := range ents {
+			if filepath.Ext(e.Name()) != ".json" {
+				continue
+			}
+			sc, err := loadScenario(filepath.Join(verifDir, "corpus", "c18", e.Name()))
+			if err != nil {
+				harnessFail("corpus scenario %s: %v", e.Name(), err)
+			}
+			sc.Expect = nil
+			sc.Note += "|corpus:" + e.Name()
+			c.count("corpus_scenarios", 1)
+			outs2 = append(outs2, outcome{sc, judgeC18(c, sc)})
+		}
+	}
 	c.phase("reporting")
 	violations := 0
 	seen := map[string]int{}
@@ -450,7 +539,7 @@ func checkC18(tier string) {
 		map[string]any{
 			"fault_free_runs":  len(outs1),
 			"read_fault_runs":  len(outs2),
-			"fault_kinds":      []string{"read_error", "missing", "is_dir"},
+			"fault_kinds":      []string{"read_error", "missing", "is_dir", "write_error", "enospc", "capacity", "dest_is_dir"},
 			"fixed_header":     string(c18Header),
 			"not_generated":    "list lines that start with a space, consist of spaces only or contain \\r; file names with a slash (the property does not say what a file name is for them)",
 		},
